@@ -36,6 +36,30 @@ def term_sx(t):
     return ["comp", term_sx(t[1]), term_sx(t[2])]
 
 
+class MemberMutated(Exception):
+    """constructing (or failing to construct) a compound transform changed one of its members"""
+
+
+import random as _random
+_FORM = _random.Random(0)      # which public spelling builds a compound term (re-seeded per check run in main)
+
+
+def _sig_of(tr):
+    return (frozenset(map(id, tr.required_keys)), frozenset(map(id, tr.output_keys)))
+
+
+def _compound(make, members, what):
+    """build a compound transform from already built members; whatever happens, the members must be left as they were"""
+    before = [_sig_of(m) for m in members]
+    try:
+        return make()
+    finally:
+        for m, b in zip(members, before):
+            if _sig_of(m) != b:
+                raise MemberMutated(f"{what}: the required/output keys of a member {type(m).__name__} changed while the "
+                                    f"compound transform was being constructed")
+
+
 def build_real(t, keys):
     k = t[0]
     if k == "init":
@@ -47,10 +71,20 @@ def build_real(t, keys):
     if k == "acc":
         return Accumulate([keys[i] for i in t[1]])
     if k == "stack":
-        return Stack([build_real(x, keys) for x in t[1]])
+        ms = [build_real(x, keys) for x in t[1]]
+        return _compound(lambda: Stack(ms), ms, "Stack")
     if k == "conj":
-        return Conjunction([build_real(x, keys) for x in t[1]])
-    return Composition(build_real(t[1], keys), build_real(t[2], keys))
+        ms = [build_real(x, keys) for x in t[1]]
+        if len(ms) == 2 and _FORM.random() < 0.4:
+            return _compound(lambda: ms[0] | ms[1], ms, "a | b")          # the operator spelling of a conjunction
+        return _compound(lambda: Conjunction(ms), ms, "Conjunction")
+    outer, inner = build_real(t[1], keys), build_real(t[2], keys)
+    form = _FORM.choice(["ctor", "lshift", "compose"])                     # the three public spellings of a composition
+    if form == "lshift":
+        return _compound(lambda: outer << inner, [outer, inner], "outer << inner")
+    if form == "compose":
+        return _compound(lambda: outer.compose(inner), [outer, inner], "outer.compose(inner)")
+    return _compound(lambda: Composition(outer, inner), [outer, inner], "Composition")
 
 
 def value_shape(ty, kshape, m, odd):
@@ -92,6 +126,8 @@ def observe(t, shapes, inp):
         tr = build_real(t, keys)
         b = ("ok", sorted(idx[id(k)] for k in tr.required_keys),
              sorted(idx[id(k)] for k in tr.output_keys))
+    except MemberMutated as e:
+        return ("member-mutated", str(e)), None
     except Exception as e:  # noqa: BLE001
         return ("err", classify_exc(e)), None
     if inp is None:
@@ -192,6 +228,10 @@ def compare(ctx: Ctx, t, shapes, rich=False):
     ctx.count("term_kind", t[0])
     sample = {"term": sx(term_sx(t)), "shapes": [list(s) for s in shapes], "build": list(b_real)}
     ctx.case(("b", t, shapes), nontrivial=True, sample=sample)
+    if b_real[0] == "member-mutated":
+        ctx.violation(f"{b_real[1]} (term {sx(term_sx(t))}): constructing a transform must not alter its parts",
+                      {"kind": "build", "term": sx(term_sx(t)), "shapes": [list(s) for s in shapes]})
+        return
     if b_real[0] != b_mod[0] or (b_real[0] == "ok" and b_real != b_mod):
         ctx.violation(
             f"constructor behaviour differs from the typing model on {sx(term_sx(t))}: "
@@ -260,8 +300,16 @@ def laws(ctx: Ctx, a, b, c, shapes):
         if bl[0] != "ok":
             continue
         for inp in inputs_for(ctx, bl[1], shapes, False)[:2]:
-            _, al = observe(l, shapes, inp)
-            _, ar = observe(r, shapes, inp)
+            bl2, al = observe(l, shapes, inp)
+            br2, ar = observe(r, shapes, inp)
+            if al is None or ar is None:
+                # the term was built a moment ago and is now refused (or the reverse): the verdict depends on HOW the
+                # compound was spelled (`Composition(a, b)`, `a << b`, `a.compose(b)`, `Conjunction([a, b])`, `a | b`)
+                ctx.violation(f"{name}: the same term {sx(term_sx(l if al is None else r))} is accepted in one public spelling and "
+                              f"refused in another: first {bl if al is None else br}, then {bl2 if al is None else br2}",
+                              {"kind": "law", "law": name, "left": sx(term_sx(l)), "right": sx(term_sx(r)),
+                               "shapes": [list(s) for s in shapes]})
+                break
             if al[0] == "input-rejected":
                 continue
             same = (al[0] == ar[0]) and (al[0] != "ok" or al == ar)
@@ -381,6 +429,7 @@ def rand_term(ctx, depth):
 
 def main(ctx: Ctx):
     ctx.lean_gate()
+    _FORM.seed(f"C14-form:{ctx.seed}")
     quick = ctx.tier == "quick"
     A = atoms(full=not quick)
     ctx.cov["atoms"] = len(A)
